@@ -6,6 +6,11 @@ import stat
 
 from . import ref
 
+import time as _time
+# Record times at or above this value were produced by the library's now() during this run; like tombstone
+# times they are never read back for a decision, so the state key abstracts them (DESIGN 3.3).
+NOW_FLOOR = int(_time.time() * 1000) - 5000
+
 
 def snapshot(root):
     """{relpath: ('d',) | ('f', bytes) | ('l', target) | ('o', mode)}; the root itself is not included.
@@ -99,6 +104,8 @@ def canon(snap):
                 for (a, b, rec) in ref.split_bucket(e[1]):
                     if rec is not None and rec["integrity"] is None:
                         h.update(b"T" + repr((rec["key"], rec["size"], rec["metadata"], rec["raw_metadata"])).encode())
+                    elif rec is not None and NOW_FLOOR <= rec["time"] < NOW_FLOOR + 10 ** 9:
+                        h.update(b"N" + repr((rec["key"], rec["integrity"], rec["size"], rec["metadata"], rec["raw_metadata"])).encode())
                     else:
                         h.update(b"L" + e[1][a:b])
                     h.update(b"\n")
